@@ -34,6 +34,9 @@ func NewKeyedPRNG(key []byte) (*KeyedPRNG, error) {
 
 // NewPRNG creates KeyedPRNG keyed from rand.Read for instances were no key should be provided by the user
 func NewPRNG() (*KeyedPRNG, error) {
+	if p, ok := verifNewPRNG(); ok {
+		return p, nil
+	}
 	var err error
 	prng := new(KeyedPRNG)
 	key := make([]byte, 64)
